@@ -392,6 +392,23 @@ theorem cfWrite_fields2 (s : State) (stop n : Nat) (ok : Bool) :
     · exact ⟨rfl, rfl, rfl, rfl⟩
     · split <;> exact ⟨rfl, rfl, rfl, rfl⟩
 
+theorem chainOk_cps (c : Cfg) : ∀ (blocks log : List Nat), CpsHold c.cps log → chainOk c log blocks = true →
+    CpsHold c.cps (log ++ blocks) := by
+  intro blocks
+  induction blocks with
+  | nil => intro log g _; simpa using g
+  | cons b bs ih =>
+    intro log g hok
+    simp only [chainOk, Bool.and_eq_true, List.all_eq_true, Bool.or_eq_true, bne_iff_ne, ne_eq, beq_iff_eq] at hok
+    have hs : CpsHold c.cps (log ++ [b]) := by
+      apply g.snoc
+      intro cp hm he
+      rcases hok.1.2 cp hm with h1 | h1
+      · exact absurd he h1
+      · exact h1.symm
+    have := ih (log ++ [b]) hs hok.2
+    simpa using this
+
 /-- `BM.inv_step`, full invariant -/
 theorem inv_step (c : Cfg) (ok : CpsOk c.cps) (hw : 1 ≤ c.win) (s : State) (e : Ev) (h : Inv c s) :
     Inv c (step c s e).1 := by
@@ -425,6 +442,18 @@ theorem inv_step (c : Cfg) (ok : CpsOk c.cps) (hw : 1 ≤ c.win) (s : State) (e 
     exact ⟨by rw [a]; exact h.good, by rw [b]; exact h.clean, by rw [a, d]; exact h.anch,
       by rw [a]; exact h.cps, by rw [a, e]; exact h.ncp⟩
   | backlog k => exact h
+  | headersFailWrite p hs =>
+    simp only [step, handleHeadersFailWrite]
+    split
+    · exact ⟨h.good, h.clean, FullAnch.anchor _ h.good.ne_nil, h.cps, h.ncp⟩
+    · exact handleHeaders_invf c ok hw s p hs h
+  | importReset blocks nf =>
+    simp only [step, importReset]
+    split
+    · rename_i hok
+      have g := chainOk_good c _ _ h.good hok
+      exact ⟨g, h.clean, FullAnch.anchor _ g.ne_nil, chainOk_cps c _ _ h.cps hok, rfl⟩
+    · exact ⟨h.good, h.clean, FullAnch.anchor _ h.good.ne_nil, h.cps, rfl⟩
 
 theorem inv_init (c : Cfg) (ok : CpsOk c.cps) (peers : List Peer) : Inv c (init c peers) := by
   refine ⟨Good.gen, rfl, ⟨1, by omega, by simp [init, revNodes, withHeights]⟩, ?_, rfl⟩
